@@ -315,10 +315,32 @@ def run(args, repo, jobs, seed, workdir, outdir):
                 rr = run_worker(b, {"mode": "replay", "replay": final}, workdir, "r%s%s" % (profile, index), 600)
                 ok = rr["out"] and rr["out"].get("reproduced")
                 if not ok:
+                    # the minimised tape does not reproduce in a fresh process (minimisation ran in the process of the
+                    # failing batch): fall back to the original run, regenerated from its seed
                     rf = json.load(open(final))
-                    rf["note"] = "replay in a fresh process did not reproduce the recorded log hash / oracle"
-                    json.dump(rf, open(final, "w"), indent=1)
-                    infra_msgs.append("replay of %s diverged" % final)
+                    alt = dict(rf, from_seed=True, tape=None, minimised=False, log_hash="")
+                    json.dump(alt, open(final, "w"), indent=1)
+                    tries, rr2 = 0, None
+                    for tries in range(1, 16):
+                        rr2 = run_worker(b, {"mode": "replay", "replay": final}, workdir, "s%s%s" % (profile, index), 600)
+                        if rr2["out"] and rr2["out"].get("reproduced"):
+                            break
+                    if rr2["out"] and rr2["out"].get("reproduced"):
+                        alt["trace"] = rr2["out"].get("trace") or alt.get("trace")
+                        if tries == 1:
+                            alt["log_hash"] = rr2["out"].get("log_hash") or ""
+                            alt["note"] = "the minimised tape did not reproduce in a fresh process; this file replays the original run from its seed"
+                        else:
+                            # the outcome depends on a choice the Go runtime makes (which ready select case, which runnable
+                            # goroutine inside a burst): the replay command repeats the run until it shows
+                            alt["attempts"] = 40
+                            alt["note"] = ("replays the original run from its seed; the violation showed in attempt %d: it depends on a choice "
+                                           "of the Go runtime (ready select cases / goroutines inside a burst), so the replay repeats the run" % tries)
+                        json.dump(alt, open(final, "w"), indent=1)
+                    else:
+                        rf["note"] = "replay in a fresh process did not reproduce the recorded log hash / oracle"
+                        json.dump(rf, open(final, "w"), indent=1)
+                        infra_msgs.append("replay of %s diverged" % final)
         if kn:
             known_hit.append((kn, oracle, key, msg, final))
         else:
@@ -425,7 +447,10 @@ def handle_crash(prop, p, res, binary, workdir, outdir, seed):
 def do_replay(prop, path, repo, workdir):
     rf = json.load(open(path))
     binary = build(workdir, repo, rf.get("oracle") == "data-race" or rf.get("profile", "").startswith("race"))
-    rr = run_worker(binary, {"mode": "replay", "replay": os.path.abspath(path), "logs": True}, workdir, "replay", 1800)
+    for _attempt in range(max(1, int(rf.get("attempts") or 1))):
+        rr = run_worker(binary, {"mode": "replay", "replay": os.path.abspath(path), "logs": True}, workdir, "replay", 1800)
+        if rr["rc"] != 0 or (rr["out"] or {}).get("violations"):
+            break
     text = (rr["stdout"] or "") + "\n" + (rr["stderr"] or "")
     if rr["rc"] != 0:
         if rr["rc"] == 3 or "WATCHDOG:" in text:
